@@ -669,6 +669,13 @@ func Forall(bound []*Term, body *Term, pat ...*Term) *Term {
 	if body.IsTrue() || body.IsFalse() {
 		return body
 	}
+	// a pattern may not contain boolean structure (ite, and, not, ...)
+	for _, p := range pat {
+		if !validPattern(p) {
+			pat = nil
+			break
+		}
+	}
 	t := mk(&Term{Op: "forall", Bound: bound, Args: []*Term{body}, Pat: pat, S: SBool})
 	t.open = hasFreeBound(t)
 	return t
@@ -1017,4 +1024,17 @@ func (s *Script) postDecl() string {
 		return s.Defs()
 	}
 	return ""
+}
+
+func validPattern(t *Term) bool {
+	switch t.Op {
+	case "ite", "and", "or", "not", "=>", "=", "<", "<=", "forall", "exists", "true", "false":
+		return false
+	}
+	for _, a := range t.Args {
+		if !validPattern(a) {
+			return false
+		}
+	}
+	return true
 }
